@@ -35,6 +35,7 @@ def arrangement_field(name):
 
 SMALL_PLATFORM = 'cus=1,sas=2'
 HARNESS_PROGRAMS = {'argreuse'}
+BOUNDARY_WORKLOADS = {'aes', 'fir', 'relu', 'vectoradd'}
 
 
 def prog_key(c):
@@ -95,6 +96,11 @@ def groups(ctx, thorough):
         byw.setdefault(g[1]['w'], []).append(g)
     pick = []
     for i, (w, gs) in enumerate(sorted(byw.items())):
+        # every size class of the workloads with 2-D / irregular grids on the small unified platform (cheap; grids with more
+        # work-group rows than columns, remainders that differ per size); the 1-D workloads have the share-boundary variants
+        for j, (key2, ref2, var2) in enumerate(gs):
+            if w not in BOUNDARY_WORKLOADS and j != (ctx.seed + i) % len(gs) and small(var2, i + j, False):
+                pick.append((key2, ref2, small(var2, i + j, False)))
         key, ref, var = gs[(ctx.seed + i) % len(gs)]
         emu = [c for c in var if c['c']['mode'] == 'emu' and (w in DISTRIBUTING or c['c']['dist'] == 'unified')]
         emu = [c for j, c in enumerate(emu) if w in DISTRIBUTING or (j + ctx.seed + i) % 4 == 0]
